@@ -21,6 +21,8 @@ WEAK = {
     "NoDoubleSignCheck": (("CaseSoundTrusting",), "VerifyCommitLightTrusting without the seenVals check"),
     "SeenByCommitSlotRange": (("CaseSoundTrusting",), "seenVals sized by len(commit.Signatures) but indexed by the trusted "
                               "set's validator index: members with index >= commit length never remembered"),
+    "TrustsEncodedTotal": (("CaseSoundFull", "CaseSoundLight", "CaseSoundTrusting"),
+                           "ValidatorSetFromProto copies an in-range total_voting_power of the encoded form into the cached total"),
     "NoBlockIDCheck": (("CaseSoundFull", "CaseSoundLight"), "blockID argument not compared with commit.BlockID"),
     "SignBytesIgnoreRound": (("CaseSoundFull", "CaseSoundLight", "CaseSoundTrusting"),
                              "canonical vote does not bind the round"),
@@ -266,7 +268,10 @@ def run(ctx):
                 "part-set header, height, round, chain, vote type, timestamp / wrong signer / foreign address / duplicated "
                 "member / unknown signer / unknown flag; frames: argument and commit height/blockID mismatches, zero block id, "
                 "other chain, short/long/rotated commits, and FOREIGN commits of every length 1..n(+1) whose slots are absent / "
-                "unknown signer / a valid signature of ANY member, repeated at will; max = floor(MaxTotalVotingPower/total)) is realised with real ed25519 keys and executed on the real "
+                "unknown signer / a valid signature of ANY member, repeated at will, and WIRE cases: the set under test is encoded "
+                "(ToProto), its unauthenticated fields rewritten (total_voting_power in 0/1/first power/half/sum/sum+1/"
+                "MaxTotal/MaxTotal+1, proposer record other/outsider/missing, priorities scrambled) and decoded with "
+                "ValidatorSetFromProto or LightBlockFromProto before the functions are called; max = floor(MaxTotalVotingPower/total)) is realised with real ed25519 keys and executed on the real "
                 "VerifyCommit, VerifyCommitLight and VerifyCommitLightTrusting (11 trust levels at scaling 1, 5 at the others) "
                 "at power scalings %s plus one of %s chosen round-robin; plus %d seeded random sets of 1..8 "
                 "members with powers up to MaxTotalVotingPower tuned to sit at / next to a threshold, totals exactly at "
@@ -315,6 +320,7 @@ def replay(ctx, path):
     row = rep["replay"]["failing_step"]
     case = {"pv": [], "frame": row["frame"], "kinds": row["kinds"], "chain": row["chain"], "h": row["h"],
             "bid": row["bid"], "c": row["c"], "src": row.get("src", "case"), "handbuilt": bool(row.get("handbuilt", False)),
+            "wire": row.get("wire", {"path": "none", "total": "zero", "proposer": "same", "prio": "same"}),
             "powers": [[str(_unlimb(p)) for p in run["pv"]] for run in row["runs"]],
             "labels": [run["scale"] for run in row["runs"]],
             "fracs": [[_unlimb(t["num"]), _unlimb(t["den"])] for t in row["runs"][0]["trust"]]}
